@@ -510,13 +510,9 @@ fn expected(sc: &Scenario, call: &Call) -> Option<(bool, Vec<Vec<u8>>)> {
     };
     let stripped = strip(&raw).into_bytes();
     let raw = raw.into_bytes();
-    let forms = if sc.register {
-        vec![raw, stripped]
-    } else if sc.pass {
-        vec![raw]
-    } else {
-        vec![stripped]
-    };
+    // which rendering a call produces (stripped or raw) is a question of *mode* - C08/C09 - not
+    // of contiguity: either is accepted, preferring the one the scenario's mode predicts
+    let forms = if sc.pass { vec![raw, stripped] } else { vec![stripped, raw] };
     Some((err, forms))
 }
 
